@@ -187,11 +187,42 @@ func init() {
 		c07responseWriter(x, fd)
 		c07requestTouch(x, fd)
 		c07gateTouch(x)
-		// ---- escapedLen, regenerated from the source by the translator (xlate.go): the model's `dropEscaped`
-		// is proved equal to it in Props/C07Xlate.lean
-		xlateEmit(x, "proxy/http_proxy.go", []xlSpec{
-			{"", "escapedLen", "XEscapedLen", []string{"auto"}, []string{"p0:Bytes:[]", "p1:Int:0"}, "Int"},
+		// ---- the cut of the escaped path that goes with a strip option (`escapedLen` today), regenerated from the
+		// source by the translator (xlate.go); the model's `dropEscaped` is proved equal to it in Props/C07Xlate.lean.
+		// The function is found by ROLE — the package function ServeHTTP calls with (<escaped path>, len(<target>.StripPath))
+		// — so a rename leaves the generated module unchanged; when there is no such function any more (inlined, replaced
+		// by a library call) an interface stub is written, Props/C07Xlate stops building and the change detector fires.
+		cutName := ""
+		ast.Inspect(fd.Body, func(n ast.Node) bool {
+			c, ok := n.(*ast.CallExpr)
+			if !ok || len(c.Args) != 2 {
+				return true
+			}
+			id, ok := c.Fun.(*ast.Ident)
+			if !ok {
+				return true
+			}
+			if l, ok := c.Args[1].(*ast.CallExpr); ok && len(l.Args) == 1 {
+				if li, ok := l.Fun.(*ast.Ident); ok && li.Name == "len" {
+					if se, ok := l.Args[0].(*ast.SelectorExpr); ok && se.Sel.Name == "StripPath" {
+						if cd := x.anyFuncDecl("proxy", id.Name); cd != nil && cd.Recv == nil {
+							cutName = id.Name
+						}
+					}
+				}
+			}
+			return true
 		})
+		if cutName != "" {
+			xlateEmit(x, c07fileOf(x, "proxy", cutName), []xlSpec{
+				{"", cutName, "XEscapedLen", []string{"auto"}, []string{"p0:Bytes:[]", "p1:Int:0"}, "Int"},
+			})
+		} else {
+			x.imports = append(x.imports, "Fabio.Xlate.Rt")
+			x.opens = append(x.opens, "Fabio.Xlate")
+			x.defRaw("namespace XEscapedLen\n\n/-- NOT TRANSLATED (ServeHTTP calls no package function with (escaped path, len(StripPath)) any more): interface stub -/\nstructure St where\n  p0 : Bytes := []\n  p1 : Int := 0\n\nabbrev Rho := Int\n\ndef run (_ : St) : V (Rho × St) := .panic \"not translated\"\n\ndef translated : Bool := false\n\nend XEscapedLen")
+			x.defStrList("xlateNotes", []string{"no function in the role of escapedLen"})
+		}
 		c07mainWiring(x)
 		c07norouteStore(x)
 		return nil
@@ -855,6 +886,18 @@ func c07touches(x *X, dir string, fd *ast.FuncDecl, param string, depth int, see
 		}
 		return true
 	})
+}
+
+// c07fileOf: the file (relative to the repo root) that declares the package-level function `name` of package dir.
+func c07fileOf(x *X, dir, name string) string {
+	for _, f := range x.files(dir) {
+		for _, d := range f.Decls {
+			if fd, ok := d.(*ast.FuncDecl); ok && fd.Recv == nil && fd.Name.Name == name {
+				return strings.TrimPrefix(strings.TrimPrefix(x.fset.Position(f.Pos()).Filename, x.repo), "/")
+			}
+		}
+	}
+	return dir + "/http_proxy.go"
 }
 
 // c07followMethods: the walk of c07touches also follows the request into methods of the same package (by name).
